@@ -1,6 +1,7 @@
 /- Line-protocol driver for the C14 model (see harness/c14.py for the request shapes). -/
 import PgModel.Json
 import PgModel.Evo
+import PgModel.EvoPerm
 open Pg Pg.C14
 
 def qOfJ : J → Option Q
@@ -111,6 +112,7 @@ def primOfJ (g : GSpec) (fuel : Nat) : List J → Option Op
   | [.str "recUniform"] => some (recPointWise false fuel g)
   | [.str "recSample"] => some (recPointWise true fuel g)
   | [.str "recKPoint", .int k] => some (recKPoint g k.toNat)
+  | [.str "recOrder"] => some (recOrder g)
   | [.str "recSegmented", .arr cuts] => do pure (recSegmented g (← cuts.mapM J.asNat?))
   | _ => none
 
